@@ -55,6 +55,17 @@ Theorem c01_cmap12_group_limits : forall groups i mc gc s e sc sg, 0 <= gc ->
   cmap12_group groups i (Some (mc, gc)) = Some (s, e, sc, sg) -> e - s <= gc /\ e <= mc + 1.
 Proof. exact cmap12_group_limits. Qed.
 
+(* postscript/dict.rs parse_bcd (real-number operand, prefix byte 30): for every byte string and cursor position it
+   returns a number or InvalidNumber / OutOfBounds - the 32-byte digit buffer is never indexed out of range (also for the
+   two-character token "E-"), the accepted string has at most 32 characters; the loop reads each byte at most once *)
+Theorem c01_parse_bcd_total : forall c, 0 <= cpos c <= USIZE_MAX ->
+  match snd (parse_bcd c) with
+  | Ok s => blen s <= 32 /\ f64_syntax_ok s = true
+  | Err e => e = InvalidNumber \/ e = OutOfBounds
+  | Panic => False
+  end.
+Proof. exact parse_bcd_total_lemma. Qed.
+
 Print Assumptions c01_read_points_fast_total.
 Print Assumptions c01_read_points_fast_length.
 Print Assumptions c01_read_points_fast_flag_steps.
@@ -63,3 +74,4 @@ Print Assumptions c01_packed_point_numbers_total_steps.
 Print Assumptions c01_packed_deltas_total_steps.
 Print Assumptions c01_cmap12_iter_total.
 Print Assumptions c01_cmap12_group_limits.
+Print Assumptions c01_parse_bcd_total.
